@@ -379,7 +379,7 @@ def run(ctx, which):
     ctx.assumptions = ["vf/model/dalvik.py + vf/model/dexr.py + the reference CFG builder in vf/checks/blockwork.py",
                        "blocks lying in the payload area after the code (nop padding, payload pseudo-instructions) have no defined successors / exception info: don't care",
                        "extra block splits are allowed (the statement does not require maximal blocks)"]
-    n = 900 if ctx.quick else 120000
+    n = 900 if ctx.quick else 480000
     args = [["shard_generated", [which, i, n // 48 + 1]] for i in range(16)]
     files = sorted(glob.glob("/repo/tests/data/APK/*.dex"))
     files = [f for f in files if os.path.getsize(f) < (1000000 if ctx.quick else 10 ** 9)]
